@@ -228,7 +228,8 @@ class Run:
     # ---- ledger
     def ledger(self):
         net, srv = self.net, self.srv
-        st = net.open_transports("server")
+        # a transport whose close() has been called is released by its owner (connection_lost follows at once)
+        st = [t for t in net.open_transports("server") if not t.closing]
         me = {asyncio.current_task()} | self.harness_tasks | {d.task for d in self.data if d.task}
         tasks = []
         for t in asyncio.all_tasks():
@@ -287,10 +288,12 @@ class Run:
         self.dead = True
         self.cut_done = how
         self.pre = self.observe()
-        if how in ("rst", "eof"):
+        if how in ("rst", "eof", "ctrl_eof"):
             for t in list(self.net.open_transports("client")):
                 if t in self.other_transports:
                     continue
+                if how == "ctrl_eof" and t.listener_port != MAIN_PORT:
+                    continue  # only the control connection is lost; the peer's data socket stays as it is
                 if how == "rst":
                     t.abort()
                 else:
@@ -366,6 +369,8 @@ class Run:
         elif kind == "cut":
             self.do_cut(arg)
             await net.settle()
+        elif kind == "mark":
+            self.snaps["mark"] = self.observe()
         elif kind == "snap":
             self.snaps[arg] = self.observe()
             rec["waiting"] = sorted(op for op, evs in CTL.waiting.items() if evs)
@@ -479,11 +484,27 @@ class Run:
                 return await bound(connection, rest)
 
             srv.commands_mapping["abor"] = spy_bound
+        # observe the state the dispatcher's finally block starts from: its first statement logs "closing connection"
+        self.end_obs = None
+        srv_logger = logging.getLogger("aioftp.server")
+
+        class EndSpy(logging.Handler):
+            def emit(self_, record):
+                try:
+                    if isinstance(record.msg, str) and record.msg.startswith("closing connection") and run.end_obs is None:
+                        if run.raw is not None and tuple(record.args or ())[1:2] == (run.client_port,):
+                            run.end_obs = run.observe()
+                except Exception as e:  # never disturb the server
+                    run.spy_error = repr(e)
+
+        spy_handler = EndSpy(level=logging.INFO)
+        old_level, old_prop = srv_logger.level, srv_logger.propagate
+        srv_logger.addHandler(spy_handler)
+        srv_logger.setLevel(logging.INFO)
+        srv_logger.propagate = False
         try:
-            if k_cut == 0:
-                # before anything is delivered: the peer connects and vanishes at once
-                pass
             self.raw = await simnet.Raw.connect(net, MAIN_PORT)
+            self.client_port = self.raw.writer.transport.get_extra_info("sockname")[1]
             self.ctrl_st = self.raw.writer.transport.peer
             tap(self.ctrl_st)
             if k_cut == 0:
@@ -516,6 +537,9 @@ class Run:
                 self.others_ok.append(codes(ls) == [257])
         finally:
             simnet._orig_pump = orig
+            srv_logger.removeHandler(spy_handler)
+            srv_logger.setLevel(old_level)
+            srv_logger.propagate = old_prop
             unhook()
             CTL.release(None)
             if bg:
@@ -652,7 +676,7 @@ def model_trace(abs_, wabs, pool_unused=None):
             evs.append([DATA])
         return evs
     assert len(wabs) == 1, "one transfer at a time"
-    kind, stage, moved, rest, n = wabs[0]
+    kind, stage, moved, rest, n = wabs[0][:5]
     payload = list(range(moved + rest))
     tag = stage[0]
     if tag == 0:  # Spawned
@@ -663,13 +687,15 @@ def model_trace(abs_, wabs, pool_unused=None):
         evs += [[SPAWN, kind, payload], [WSTEP, 0]]
         if stage[1]:
             evs.append([DATA])
-    elif tag in (7, 8, 9, 10, 11) and moved == 0 and stage != [7]:
-        # finished without having run its body (425 / cancelled while waiting)
+    elif tag in (8, 11) or (tag == 10 and wabs[0][5:] == (False,)):
+        # finished without having run its body (425 / cancelled or failed while waiting)
         evs += [[SPAWN, kind, payload], [WSTEP, 0]]
         if tag == 8:
             evs.append([WAITTO, 0])
         elif tag == 11:
             evs.append([WTHROW, 0, 0])
+        else:
+            evs.append([WTHROW, 0, stage[1]])
     else:
         evs += [[DATA], [SPAWN, kind, payload]]
         if tag == 2:
@@ -678,7 +704,7 @@ def model_trace(abs_, wabs, pool_unused=None):
             steps = 2 + stage[1]
         elif tag == 4:
             steps = 2 + n
-        elif tag == 5:
+        elif tag in (5, 10):
             steps = 3 + n + moved
         elif tag == 6:
             steps = 3 + n + moved + 1 + (n - 1 - stage[1])
@@ -687,6 +713,8 @@ def model_trace(abs_, wabs, pool_unused=None):
         else:
             raise ValueError(stage)
         evs += [[WSTEP, 0]] * steps
+        if tag == 10:  # failed inside the body: the exception, then the contexts are exited
+            evs += [[WTHROW, 0, stage[1]]] + [[WSTEP, 0]] * (n + 1)
         if abs_["data"]:
             evs.append([DATA])
     return evs
@@ -729,7 +757,9 @@ def resolve_workers(obs, facts, block, ever_data=True):
             moved, rest = 0, 1
         if stage[0] == 7 and not ever_data:
             stage, moved = [8], 0
-        res.append((kind, stage, moved, rest, f["n"]))
+        if stage[0] == 10:
+            rest = 1
+        res.append((kind, stage, moved, rest, f["n"]) + ((False,) if stage[0] == 10 and not ever_data else ()))
     return res
 
 
@@ -770,3 +800,86 @@ def strip_obs(o):
         a = dict(a)
         a["workers"] = [{"kind": w["kind"], "stage": w["stage"]} for w in a["workers"]]
     return {"ledger": o["ledger"], "abs": a, "waiting": o["waiting"], "done": o["done"], "wlog": o["wlog"]}
+
+
+# ====================================================================== scripted transfers held at a chosen stage
+BLOCK = 4
+VERBS = ["RETR", "STOR", "APPE", "LIST", "MLSD"]
+FILES = {"f": 10, "old": 6, "d/": 0, "d/a": 3, "d/b": 4, "d/c": 5}
+LOGIN_STEPS = [["cmd", "USER anonymous"], ["cmd", "PASV"]]
+DONE = {"RETR": 226, "STOR": 226, "APPE": 226, "LIST": 226, "MLSD": 200}
+
+
+def cmd_of(verb):
+    return {"RETR": "RETR f", "STOR": "STOR up", "APPE": "APPE old", "LIST": "LIST d", "MLSD": "MLSD d"}[verb]
+
+
+def transfer_setup(verb, place, size=None, rest=None, listen="PASV"):
+    """steps that bring a session to `place`:
+         ("idle", "login"|"pasv"|"pasv_dconn")  no transfer
+         ("bind", 1|2)                          PASV/EPSV suspended inside listener start-up (case["bind_gate"] = stage)
+         ("nodata",)                            transfer command sent, 150, the peer has not connected
+         ("handler_gate", op, n)                the command handler itself is suspended in the back-end (before 150)
+         ("gate", op, n)                        data connection first; n-th back-end call `op` of the session suspended
+         ("late_gate", op, n)                   the same, the data connection arrives after 150
+         ("sent", j)                            upload: the peer has sent j bytes and pauses
+         ("noread",)                            download against a peer that does not read (flow control)
+         ("ticks", n) ("pipe",) ("pipe_nodata",)  ABOR n loop iterations after / in one segment with the command
+         ("done",)                              the transfer has completed
+       returns (steps, gates, files, block, payload size)"""
+    files = dict(FILES)
+    block = BLOCK
+    payload = 10 if size is None else size
+    if verb == "RETR" and size is not None:
+        files["f"] = size
+    steps = [["cmd", "USER anonymous"], ["cmd", listen]]
+    gates = []
+    c = cmd_of(verb) if verb else None
+    pre = [["cmd", f"REST {rest}"]] if rest else []
+    kind = place[0]
+    if kind == "idle":
+        steps = [["cmd", "USER anonymous"]]
+        if place[1] in ("pasv", "pasv_dconn"):
+            steps.append(["cmd", listen])
+        if place[1] == "pasv_dconn":
+            steps.append(["dconn"])
+    elif kind == "bind":
+        pass
+    elif kind == "nodata":
+        steps += pre + [["cmd", c]]
+    elif kind == "gate":
+        gates = [[place[1], place[2]]]
+        steps += [["dconn"]] + pre + [["cmd", c]]
+        if verb in ("STOR", "APPE"):
+            steps += [["dsend", payload]]
+            if place[1] == "close":
+                steps += [["deof"]]
+    elif kind == "handler_gate":
+        gates = [[place[1], place[2]]]
+        steps += [["dconn"]] + pre + [["cmd", c]]
+    elif kind == "late_gate":
+        gates = [[place[1], place[2]]]
+        steps += pre + [["cmd", c], ["dconn"]]
+        if verb in ("STOR", "APPE"):
+            steps += [["dsend", payload]]
+            if place[1] == "close":
+                steps += [["deof"]]
+    elif kind == "sent":
+        steps += [["dconn"]] + pre + [["cmd", c], ["dsend", place[1]]]
+    elif kind == "noread":
+        files["f"] = 300000
+        block = 65536
+        steps += [["dconn_noread"], ["cmd", c]]
+    elif kind == "ticks":
+        steps += [["dconn"]] + pre + [["ticksend", [c, place[1], "ABOR"]]]
+    elif kind == "pipe":
+        steps += [["dconn"]] + pre + [["pipe", [c, "ABOR"]]]
+    elif kind == "pipe_nodata":
+        steps += pre + [["pipe", [c, "ABOR"]]]
+    elif kind == "done":
+        steps += [["dconn"]] + pre + [["cmd", c]]
+        if verb in ("STOR", "APPE"):
+            steps += [["dsend", payload], ["deof"]]
+    else:
+        raise ValueError(place)
+    return steps, gates, files, block, payload
